@@ -43,8 +43,12 @@ def h_res(cfg):
         if kind == 'res':
             r['ev'] = res.request()
         else:
-            r['prio'] = sym_int('p%d' % u)
-            r['preempt'] = bool(sym_bool('f%d' % u)) if kind == 'preempt' else bool(cfg.get('preempt_flags', [1] * 9)[u])
+            fx = (cfg.get('fixed') or {}).get(str(u))
+            if fx is not None:
+                r['prio'], r['preempt'] = fx[0], bool(fx[1])
+            else:
+                r['prio'] = sym_int('p%d' % u)
+                r['preempt'] = bool(sym_bool('f%d' % u)) if kind == 'preempt' else bool(cfg.get('preempt_flags', [1] * 9)[u])
             r['ev'] = res.request(priority=r['prio'], preempt=r['preempt'])
         reqs.append(r)
         r['created_step'] = steps[0]
@@ -67,8 +71,17 @@ def h_res(cfg):
         check('c06.preempted-same-instant', eq(env.now, exp['at']))
         cover('preempted')
 
+    arrivals = {}
+
+    def arrival(u):
+        grp = cfg.get('same_arrival') or []
+        k = 'grp' if u in grp else u
+        if k not in arrivals:
+            arrivals[k] = num('a%s' % k)
+        return arrivals[k]
+
     def user(u, script):
-        yield env.timeout(num('a%d' % u))
+        yield env.timeout(arrival(u))
         if script in ('hold', 'rel2', 'holdrel'):
             r = mk_request(u)
             try:
@@ -165,7 +178,7 @@ def h_res(cfg):
                   ([q['u'] for q in pre], r['u']))
             for o in in_users:
                 if not any(o is q for q in pre):
-                    check('c06.evict-worst-user', Not(lex_lt(key(r)[:3], key(o)[:3])), (r['u'], o['u']))
+                    check('c06.evict-worst-user', Not(lex_lt(key(r), key(o))), (r['u'], o['u']))
             check('c06.evict-only-when-full', len(in_users) == cap, (len(in_users), cap))
             r['state'] = 'evicted'
             evicted[r['u']] = {'by': [procs[q['u']] for q in pre], 'since': r['granted_at'], 'at': env.now}
@@ -227,7 +240,16 @@ def jobs(tier, seed):
         if tier != 'quick':
             allc = list(itertools.product(base, repeat=3))
             rng.shuffle(allc)
-            triples += [(c, 1 + (i % 2)) for i, c in enumerate(allc[:8])]
+            triples += [(c, 1 + (i % 2)) for i, c in enumerate(allc[:3])]
+        if kind == 'preempt':
+            # two users with identical (priority, request time, preempt flag) hold both slots; a third one preempts:
+            # the later arrival of the two is the worst-ranked
+            js.append({'harness': 'res', 'weight': 100,
+                       'cfg': {'kind': kind, 'capacity': 2, 'scripts': ['hold', 'hold', 'hold'], 'sorts': 'int',
+                               'fixed': {'0': [1, 0], '1': [1, 0]}, 'same_arrival': [0, 1]}})
+            js.append({'harness': 'res', 'weight': 100,
+                       'cfg': {'kind': kind, 'capacity': 2, 'scripts': ['hold', 'hold', 'hold'], 'sorts': 'real',
+                               'fixed': {'0': [2, 1], '1': [2, 1], '2': [1, 1]}, 'same_arrival': [0, 1]}})
         for ci, (sc, cap) in enumerate(triples):
             js.append({'harness': 'res', 'weight': 400 if kind == 'preempt' else 150,
                        'cfg': {'kind': kind, 'capacity': cap, 'scripts': list(sc), 'sorts': 'int' if ci % 2 else 'real'},
